@@ -333,7 +333,7 @@ class Purity(object):
                 return True    # method returning a new object (str/number/array methods): assumption A2
             if isinstance(tgt, Ext):
                 if tgt.name in ('builtins.iter', 'builtins.next', 'builtins.reversed', 'builtins.max', 'builtins.min',
-                                'builtins.getattr', 'numpy.asarray', 'numpy.asanyarray', 'numpy.ravel', 'numpy.reshape',
+                                'builtins.getattr', 'builtins.vars', 'numpy.asarray', 'numpy.asanyarray', 'numpy.ravel', 'numpy.reshape',
                                 'numpy.transpose', 'numpy.squeeze', 'numpy.atleast_1d', 'numpy.atleast_2d'):
                     return all(self.fresh_expr(f, a, _seen) for a in e.args)
                 return True
@@ -467,6 +467,9 @@ class Purity(object):
             return out
         if isinstance(rhs, ast.Call) and isinstance(rhs.func, ast.Attribute) and rhs.func.attr in ALIASING_METHODS:
             return self._alias_exprs(rhs.func.value, f)
+        if isinstance(rhs, ast.Call) and isinstance(rhs.func, ast.Name) and rhs.func.id == 'vars' and len(rhs.args) == 1:
+            # vars(x) IS x.__dict__, the live attribute namespace of x: a store into it is an attribute assignment on x
+            return self._alias_exprs(rhs.args[0], f)
         if isinstance(rhs, ast.Call) and f is not None:
             # a repository function that may hand one of its parameters back: the result aliases the corresponding argument
             out = []
